@@ -38,7 +38,7 @@ FLAVOURS = {
                   "-fno-sanitize-recover=all"],
     "tsan": ["clang++", "-O1", "-g", "-fsanitize=thread"],
 }
-COMMON = ["-std=c++17", "-fPIC", "-w", "-D" + GUARD, "-I" + os.path.join(REPO, "src"),
+COMMON = ["-std=c++17", "-fPIC", "-w", "-rdynamic", "-D" + GUARD, "-I" + os.path.join(REPO, "src"),
           "-I/usr/include/eigen3", "-I" + HARNESS]
 
 
